@@ -372,6 +372,12 @@ def with_family(rp):
     f.add("nullable-resource-into-typed-alias", cls + "def conn: Conn? := None\nwith conn as c: Conn do\n    print(c.send(3))", "reject")
     f.add("nullable-resource-into-typed-alias-primitive", "def x: Int? := None\nwith x as y: Int do\n    def z: Int := y\n    print(z)", "reject")
     f.add("nullable-resource-into-untyped-alias", "def x: Int? := None\nwith x as y do\n    def z: Int := y\n    print(z)", "reject")
+    f.add("nullable-call-resource-into-typed-alias", "def f() -> Int? => None\nwith f() as y: Int do\n    def z: Int := y\n    print(z)", "reject")
+    f.add("nullable-call-resource-into-untyped-alias", "def f() -> Int? => None\nwith f() as y do\n    def z: Int := y\n    print(z)", "reject")
+    f.add("wrong-call-resource-into-typed-alias", "def f() -> Str => \"a\"\nwith f() as y: Int do\n    def z: Int := y\n    print(z)", "reject")
+    f.add("call-resource-into-typed-alias", cls + "def open() -> Conn => Conn()\nwith open() as c: Conn do\n    print(c.send(3))", "accept")
+    f.add("call-resource-into-untyped-alias", cls + "def open() -> Conn => Conn()\nwith open() as c do\n    print(c.send(3))", "accept")
+    f.add("constructor-resource-into-untyped-alias", cls + "with Conn() as c do\n    print(c.send(3))", "accept")
     f.add("plain-resource-into-typed-alias", cls + "def conn: Conn := Conn()\nwith conn as c: Conn do\n    print(c.send(3))", "accept")
     f.add("plain-resource-into-untyped-alias", "def x: Int := 1\nwith x as y do\n    def z: Int := y\n    print(z)", "accept")
     return f
@@ -380,7 +386,8 @@ def with_family(rp):
 def ob_with_alias(run, mir, rp, fam):
     ob = run.ob("with-alias-takes-resource-type", "E2", "gen_resources, the arm with an alias: on every successful path - alias annotated or not - a constraint "
                 "ties the resource expression to the alias (so the alias is what the resource is, nullable included), added in the incoming environment; "
-                "an annotation adds a constraint against the declared type and never replaces that link", ["gen_resources (With, alias)"])
+                "an annotation adds a constraint against the declared type and never replaces that link; no constraint equates the resource with Any "
+                "(which would make the unifier forget what the resource is)", ["gen_resources (With, alias)"])
     import ckern
     fn = e2.find1(mir, file=RES_RS, name="gen_resources")
     ex = Exec(mir, max_paths=20000, inline=[ckern.ENV_SETTERS])
@@ -406,7 +413,11 @@ def ob_with_alias(run, mir, rp, fam):
         res_e = ex.to_val(s, ex.app("Expected.From::from", [resource], "Expected", s))
         ali_e = ex.to_val(s, ex.app("Expected.From::from", [alias], "Expected", s))
         link = e2.disj([z3.And(a["argvals"][2] == res_e, a["argvals"][3] == ali_e, a["argvals"][4] == ex.to_val(s, env)) for a in adds])
-        claims.append(z3.Implies(e2.conj(p.cond), link))
+        # ... and nothing equates the resource with Any: the unifier replaces an expression that is constrained by a type with that type
+        # (unify_type lets Any pass on either side), so `resource >= Any` would make every later comparison of the resource vacuous
+        anys = [ex.to_val(s, a_["ret"]) for a_ in p.events if a_["name"].endswith("Expected::any")]
+        widened = e2.disj([z3.And(a["argvals"][2] == res_e, a["argvals"][3] == w) for a in adds for w in anys])
+        claims.append(z3.Implies(e2.conj(p.cond), z3.And(link, z3.Not(widened))))
     if n_ok < 2:
         raise Unsupported(f"{n_ok} Ok paths in the alias arm")
     wf = with_family(rp)
